@@ -33,7 +33,7 @@ type triageEntry struct {
 }
 
 func loadTriage() []triageEntry {
-	data, err := os.ReadFile(filepath.Join(verifRoot, "selftest", "mutation_triage.json"))
+	data, err := os.ReadFile(filepath.Join(verifRoot, "mutation", "triage.json"))
 	if err != nil {
 		return nil
 	}
@@ -403,8 +403,8 @@ func cmdMutate(args []string) int {
 			"rule": "a mutant is killed when an obligation on the expectation lists of the checks stops being discharged, vanishes, or the contract no longer applies; only the mutated function and its literals are re-verified (modular verification)",
 		}
 		data, _ := json.MarshalIndent(rep, "", " ")
-		os.WriteFile(filepath.Join(verifRoot, "selftest", "mutation_report.json"), append(data, '\n'), 0o644)
+		os.WriteFile(filepath.Join(verifRoot, "mutation", "report.json"), append(data, '\n'), 0o644)
 	}
-	fmt.Printf("mutants: %d killed, %d survived without an explanation, %d survived and explained in selftest/mutation_triage.json, %d invalid (do not compile)\n", counts["killed"], counts["survived"], counts["survived-triaged"], counts["invalid"])
+	fmt.Printf("mutants: %d killed, %d survived without an explanation, %d survived and explained in mutation/triage.json, %d invalid (do not compile)\n", counts["killed"], counts["survived"], counts["survived-triaged"], counts["invalid"])
 	return 0
 }
